@@ -6,15 +6,46 @@ import Miden.Lemmas.HonestAir
 namespace Miden.C03
 open Miden Miden.Air Miden.Vm
 
+/-- A successful step is a successful `stepCore` whose result keeps the clock and the row log. -/
+theorem step_ok {vm vm' : Vm} {op : Op} (h : vm.step op = .ok vm') :
+    ∃ r, vm.stepCore op = .ok r ∧ vm' = { r with clk := vm.clk, trace := vm.trace } := by
+  unfold step at h
+  split at h
+  · cases h
+  · rename_i r hr
+    cases h
+    exact ⟨r, hr, rfl⟩
+
 set_option hygiene false in
 /-- Like `honest_tac`, for operations that can fail: the failing branches contradict `h`. -/
 macro "honest_tac_split" : tactic => `(tactic| (
   intro b1 b1' h0 h0' opn hlpn hh hb
   obtain ⟨x0, x1, x2, x3, x4, x5, x6, x7, x8, x9, x10, x11, x12, x13, x14, x15, t, hs⟩ := split16 _ hl
-  simp only [step, stepCore, dup, movup, movdn, validAddr, hs] at h
-  (repeat' (split at h)) <;> cases h <;>
+  obtain ⟨r, hcore, rfl⟩ := step_ok h
+  simp only [stepCore, dup, movup, movdn, validAddr, hs] at hcore
+  (repeat' (split at hcore)) <;> cases hcore <;> (try subst_vars) <;>
   (rcases t with _ | ⟨t0, t⟩) <;> honest_simp <;> honest_close))
 
+set_option hygiene false in
+/-- Memory operations: the address operand `a` must be a valid address, otherwise the step fails. -/
+macro "honest_tac_addr" a:ident : tactic => `(tactic| (
+  intro b1 b1' h0 h0' opn hlpn hh hb
+  obtain ⟨x0, x1, x2, x3, x4, x5, x6, x7, x8, x9, x10, x11, x12, x13, x14, x15, t, hs⟩ := split16 _ hl
+  obtain ⟨r, hcore, rfl⟩ := step_ok h
+  simp only [stepCore, validAddr, hs] at hcore
+  by_cases ha : $a > u32max
+  · simp [ha] at hcore
+  · simp only [ha, if_false] at hcore
+    (repeat' (split at hcore)) <;> cases hcore <;> (try subst_vars) <;>
+    (rcases t with _ | ⟨t0, t⟩) <;> honest_simp <;> honest_close))
+
+set_option hygiene false in
+/-- Common prefix of the hand-written proofs: name the 16 visible cells and expose `stepCore`. -/
+macro "honest_intro" : tactic => `(tactic| (
+  intro b1 b1' h0 h0' opn hlpn hh hb
+  obtain ⟨x0, x1, x2, x3, x4, x5, x6, x7, x8, x9, x10, x11, x12, x13, x14, x15, t, hs⟩ := split16 _ hl
+  obtain ⟨r, hcore, rfl⟩ := step_ok h
+  simp only [stepCore, hs] at hcore))
 
 set_option hygiene false in
 /-- `honest_simp` with additional rewrite rules. -/
